@@ -3,13 +3,13 @@
 //! `dispatch` returns `None` for a configuration the harness was not compiled with.
 
 use crate::driver::run_history;
-use crate::elem::{Fu64, Nl, Pair, Var};
+use crate::elem::{Fu64, Nl, Pair, Quad, Var};
 use alloy_primitives::{U128, U256};
 use milhouse::update_map::MaxMap;
 use std::collections::BTreeMap;
 use tree_hash::Hash256;
 use typenum::{
-    U1, U1024, U1099511627776, U16, U17, U2, U281474976710656, U3, U32, U33, U4, U5,
+    U0, U1, U1024, U1099511627776, U16, U17, U2, U281474976710656, U3, U32, U33, U4, U5,
     U562949953421312, U64, U7, U8, U9, U9223372036854775808,
 };
 use vec_map::VecMap;
@@ -79,22 +79,26 @@ macro_rules! kind_fn {
 }
 
 kind_fn!(run_u8, u8;
+    0 => U0,
     281474976710656 => U281474976710656,
     562949953421312 => U562949953421312,
     9223372036854775808 => U9223372036854775808);
 kind_fn!(run_u16, u16;);
 kind_fn!(run_u32, u32;);
 kind_fn!(run_u64, u64;
+    0 => U0,
     281474976710656 => U281474976710656,
     562949953421312 => U562949953421312,
     9223372036854775808 => U9223372036854775808);
 kind_fn!(run_u128, U128;);
 kind_fn!(run_u256, U256;);
 kind_fn!(run_h256, Hash256;
+    0 => U0,
     281474976710656 => U281474976710656,
     562949953421312 => U562949953421312,
     9223372036854775808 => U9223372036854775808);
 kind_fn!(run_pair, Pair;);
+kind_fn!(run_quad, Quad;);
 kind_fn!(run_var, Var;);
 kind_fn!(run_nl, Nl;);
 kind_fn!(run_fu64, Fu64;);
@@ -118,6 +122,7 @@ pub fn dispatch(
         "u256" => run_u256(n, map, ops, out, hdr),
         "h256" => run_h256(n, map, ops, out, hdr),
         "pair" => run_pair(n, map, ops, out, hdr),
+        "quad" => run_quad(n, map, ops, out, hdr),
         "var" => run_var(n, map, ops, out, hdr),
         "nl" => run_nl(n, map, ops, out, hdr),
         "fu64" => run_fu64(n, map, ops, out, hdr),
